@@ -341,6 +341,10 @@ def rule_passthrough(prog, res, rule="R-PASSTHROUGH"):
     cs = [c for b, i, s in f.all_stmts() for c in calls(s, "channel_read_map")]
     for c in cs:
         p = (ir.ap(c["args"][0]), ir.ap(c["args"][1]))
+        if (p[0] or "").endswith("filter.in") and (p[1] or "").endswith("filter.reader") and \
+                (p[0] or "").rsplit("filter.", 1)[0].lstrip("&") == (p[1] or "").rsplit("filter.", 1)[0].lstrip("&"):
+            res.oblige(rule, "acquire_stop discards what is left in the filter's queue through the filter's own reader", True, "%s, %s" % p, f.loc())
+            continue
         ok = (p[0] or "").endswith("sink.in") and (p[1] or "").endswith("monitor.reader")
         inst = "acquire_stop flushes the monitor reader on the sink's input channel"
         if ok:
@@ -477,6 +481,24 @@ def rule_abort_sequence(prog, res, rule="R-ABORT-SEQ"):
         ("camera_execute_trigger", lambda s: paths.stmt_reaches(prog, f, s, {"camera_execute_trigger", "->execute_trigger"}) or bool(calls(s, "camera_execute_trigger")),
          "a camera waiting for a software trigger never returns from its frame call"),
     ]
+    # every other queue a worker of the stream writes into (found in acquire_init's wiring: the `in` channels
+    # handed to the video_*_init functions as write targets) must be refused too: its consumer may be dead
+    ai = prog.func("acquire_init", required=False)
+    queues = set()
+    if ai is not None:
+        for b_, i_, s_ in ai.all_stmts():
+            for c_ in ir.calls_in(s_):
+                if (c_.get("fn") or "").startswith("video_") and (c_.get("fn") or "").endswith("_init"):
+                    for a_ in c_.get("args", [])[1:]:
+                        p_ = ir.ap(a_) or ""
+                        if p_.endswith(".in") and "video" in p_:
+                            queues.add(p_.rsplit("->", 1)[-1] if "->" in p_ else p_.split(".", 1)[-1])
+    for q in sorted(queues):
+        if q.endswith("sink.in"):
+            continue
+        reqs.append(("channel_accept_writes(%s, 0)" % q,
+                     (lambda q: lambda s: any(ir.is_const(c["args"][1], 0) and (ir.ap(c["args"][0]) or "").endswith(q) for c in calls(s, "channel_accept_writes")))(q),
+                     "a source that waits for space in that queue (its consumer may have quit on an error) is never released"))
     # the body for a valid stream starts on the false edge of the 'skip' test
     valid_starts = []
     for b in body:
@@ -499,7 +521,7 @@ def rule_abort_sequence(prog, res, rule="R-ABORT-SEQ"):
         if ok:
             res.oblige(rule, inst, True, "on every path of the per-stream body", f.loc())
         else:
-            res.fail(rule, inst, "%s|%s" % (rule, name.split("(")[0].split(" ")[0]), f.loc(),
+            res.fail(rule, inst, "%s|%s" % (rule, name.split("(")[0].split(" ")[0] if "filter.in" not in name else "refuse-filter-queue"), f.loc(),
                      "acquire_abort can skip '%s' for a valid stream: %s, and the following acquire_stop waits forever" % (name, why))
     # order: the trigger is a one-shot wake-up; the stop request must already
     # be visible when the source returns from the frame call it releases
@@ -905,7 +927,7 @@ def rule_consume(prog, res, fname, mode, rule="R-CONSUME"):
     return n
 
 
-def rule_drain_after_stop(prog, res, fname, pass_names, rule="R-DRAIN"):
+def rule_drain_after_stop(prog, res, fname, pass_names, rule="R-DRAIN", passes=1):
     """A consumer worker makes one more pass over its input after it has seen
     its stop request: every path from a read of self->is_stopping to the
     worker's exit passes a call that consumes input (the producer commits its
@@ -927,13 +949,35 @@ def rule_drain_after_stop(prog, res, fname, pass_names, rule="R-DRAIN"):
         def consumes(q):
             return any(c.get("fn") in pass_names for c in ir.calls_in(q)) or paths.stmt_reaches(prog, f, q, set(pass_names))
         ok, w = paths.all_paths_pass(f, (bid, i), "exit", consumes)
+        if ok and passes > 1:
+            # a pass is one map/unmap of the input: a backlog that spans the wrap point of the ring needs two
+            # (the rest of the old lap, then the start of the new lap) - or a loop that runs until empty
+            firsts = [(b2.id, i2) for b2, i2, s2 in f.all_stmts() if consumes(s2) and
+                      (b2.id, i2) in {(x[0], x[1]) for x in paths.reachable_after(f, (bid, i), consumes)}]
+            in_loop_until = any(paths.innermost_loop(f, b2) and not any(
+                isinstance(y, dict) and y.get("k") == "mem" and y.get("f") == "is_stopping"
+                for blk_ in [f.blocks[x_] for x_ in paths.innermost_loop(f, b2)] for y in (ir.walk(blk_.cond_node()) if blk_.cond_node() is not None else []))
+                for b2, i2 in firsts)
+            def pass_failed(blk, succ):
+                # the failure edge of a tested pass (CHECK(process_data(..))): the worker leaves through its error path
+                c_ = blk.cond_node()
+                return c_ is not None and any(cc.get("fn") in pass_names for cc in ir.calls_in(c_)) and succ.get("label") == failure_label(c_)
+            again = all(paths.all_paths_pass(f, p2, "exit", consumes, edge_ok=pass_failed)[0]
+                        for p2 in firsts if not paths.all_paths_pass(f, (bid, i), {p2}, consumes)[0])
+            if not (again or in_loop_until):
+                ok = False
+                w = None
         n += 1
-        inst = "%s: after the stop flag was read (line %s) the input is consumed once more before the worker leaves" % (fname, s.get("line"))
+        inst = "%s: after the stop flag was read (line %s) the input is consumed %s before the worker leaves" % (
+            fname, s.get("line"), "once more" if passes == 1 else "until nothing can be left (two passes, or a loop until empty)")
         if ok:
             res.oblige(rule, inst, True, "%s on every path to the exit" % "/".join(sorted(pass_names)), f.loc(s))
         else:
             res.fail(rule, inst, "%s|%s" % (rule, fname), f.loc(s),
-                     "%s can read its stop flag and leave without another pass over its input: frames the producer committed just before raising the flag stay in the ring, are missing from this acquisition and reappear in the next one" % fname,
+                     ("%s can read its stop flag and leave without another pass over its input: frames the producer committed just before raising the flag stay in the ring, are missing from this acquisition and reappear in the next one" % fname)
+                     if passes == 1 or not paths.all_paths_pass(f, (bid, i), "exit", consumes)[0] else
+                     ("%s makes a single pass over its input after its stop request: when the unread backlog spans the wrap point of the ring one map returns only the rest of the old lap, "
+                      "the frames at the start of the new lap stay behind - missing from this acquisition, processed first in the next one" % fname),
                      {"path_blocks": w})
     return n
 
